@@ -411,8 +411,13 @@ class Model:
             normalize.positional_calls(tree, table)
             if ref is not None:
                 from . import inline
+                for c in normalize.new_from_imports(tree, ref['module_names'].get(name)):
+                    self.inlined.append('new from-import read as the dotted name: %s' % c)
+                normalize.insort_form(tree)
                 for c in normalize.fold_new_constants(tree, ref['module_names'].get(name)):
                     self.inlined.append('constant %s.%s read through' % (name, c))
+                for s_ in normalize.restore_closures(tree, name, set(ref['functions']), ref['locals']):
+                    self.inlined.append('new staticmethod read as the closure it was: %s' % s_)
                 for s_ in normalize.restore_staticmethods(tree, name, ref['functions']):
                     self.inlined.append('module function read as the staticmethod %s.%s again' % (name, s_))
                 self.inlined += inline.apply(tree, name, ref['functions'], ref['locals'])
